@@ -140,9 +140,25 @@ RULE = ("one stratum per native strategy (CMA-ES, sep-CMA-ES, LM-MA-ES, OpenAI-E
         "(the per-row record of the draws); non-mirror OpenAI-ES with bounds accepting < 1 % of the draws (hundreds of "
         "resampling rounds, beyond BOUNDS_SAMPLING_THRESHOLD); LM-MA-ES with n_vectors from 1 to 2*batch_size and "
         "histories longer than both; one deterministic LM-MA-ES run with batch_size == solution_dim (open "
-        "finding D50). A strategy case is non-trivial when some iteration selects >= 2 parents under a non-identity "
+        "finding D50). REJECTED CALLS (45 % of the histories of the five strategy strata and of the gradient-optimizer "
+        "stratum, 40 % of the float32 recorded-draws stratum; 1..3 per history at random positions incl. first and "
+        "last): a call the optimizer rejects by raising -- tell() with malformed ranking_indices (an index == "
+        "batch_size + k or < -batch_size, float or string index arrays), ask(batch_size=negative / fractional), for "
+        "OpenAI-ES step() on its public adam_opt with a wrong-length / 2-D / non-numeric gradient; for AdamOpt / "
+        "GradientAscentOpt step() with a longer / shorter / (1,n) / (k,n) / (n,1) / ragged / non-numeric / None / dict / "
+        "non-finite gradient -- after which the SAME object is used for the rest of the history and must be "
+        "indistinguishable from a twin (deep copy taken before the first rejected call) that never makes these calls "
+        "and receives every other call: equal public attributes straight after the rejection, after every later "
+        "ask / tell / step / reset, bit-identical batches from every later ask(), equal check_stop verdicts, and an "
+        "identical next iteration (ask, tell, ask / two valid steps) run on copies of both right after the rejection; "
+        "a call that the library accepts instead ends the case without a verdict (counted). A strategy case is non-trivial when some iteration selects >= 2 parents under a non-identity "
         "permutation; a gradient case when >= 2 non-zero gradients are stepped; counted once per distinct op list")
 PARTIAL = [
+    "rejected calls: the malformed calls drawn are malformed ranking_indices / batch_size for the evolution strategies "
+    "and malformed gradients for the gradient optimizers (and for OpenAI-ES's adam_opt); a malformed num_parents "
+    "(None, fractional, > batch size) is outside the quantifier ('parent counts from 0 to batch size') and is not "
+    "drawn -- CMA-ES / sep-CMA-ES advance current_eval before such a tell raises; the pycma wrapper is not given "
+    "rejected calls",
     "sampling distribution: only the deterministic identity 'row i = mean + sigma*T*z_i for the recorded/replayed "
     "standard-normal draw z_i' is checked; that the generator's draws are standard normal is NumPy's contract",
     "convergence on a convex quadratic: run as labelled tests in the thorough tier (coverage.tests), no theorem",
@@ -659,18 +675,27 @@ def run_es_case(case):
     f = after_reset("reset#0", case["x0"], x0)
     if f:
         return f
+    # from the first REJECTED call on: a deep copy taken before that call, which never makes such calls and receives
+    # every other call of the history; the optimizer under test must stay indistinguishable from it
+    tw = {"es": None}
+
+    def twin_reset(where, values):
+        if tw["es"] is None:
+            return None
+        tw["es"].reset(make_start(values, layout, dt))  # an equal, independent object of the same layout
+        return twin_state(es, tw, where, "reset")
     try:
         for step, op in enumerate(case["ops"]):
             where = f"op#{step} {op['op']}"
             if op["op"] == "reset":
                 if op.get("same", False):
                     es.reset(start.obj)  # the identical array object, after a history
-                    f = start.changed(where, "reset") or after_reset(where, case["x0"], x0)
+                    f = start.changed(where, "reset") or after_reset(where, case["x0"], x0) or twin_reset(where, case["x0"])
                     count(f"{kind}:reset-same-object")
                 else:
                     x1 = np.array(op["x0"], dtype=dt)
                     es.reset(make_start(op["x0"], layout, dt))
-                    f = start.changed(where, "reset") or after_reset(where, op["x0"], x1)
+                    f = start.changed(where, "reset") or after_reset(where, op["x0"], x1) or twin_reset(where, op["x0"])
                 if f:
                     return f
                 count(f"{kind}:reset")
@@ -678,7 +703,13 @@ def run_es_case(case):
             if not case.get("tight") and width_guard(case, es, kind, lb64, ub64):
                 count(f"{kind}:stop-width-guard")
                 return None
-            f = es_iteration(case, es, shadow, op, where, kind, dt, tol, dim, batch, lb, ub, lb64, ub64, adam_ref)
+            if op["op"] == "rejected":
+                f = es_rejected(case, es, op, f"{where} [{op['how']}]", kind, dim, batch, tw)
+                f = f or start.changed(where, "a rejected call") or sig0.changed(es, where, "a rejected call")
+                if f:
+                    return f
+                continue
+            f = es_iteration(case, es, shadow, op, where, kind, dt, tol, dim, batch, lb, ub, lb64, ub64, adam_ref, tw)
             f = start.changed(where, "ask/tell") or sig0.changed(es, where, "ask/tell") or f
             if f:
                 return f
@@ -688,10 +719,13 @@ def run_es_case(case):
             f = start.changed(where, "check_stop") or sig0.changed(es, where, "check_stop")
             if f:
                 return f
+            if tw["es"] is not None and bool(tw["es"].check_stop(np.sort(perm_vals(case, op, batch, 0))[::-1])) != bool(stop):
+                return fail("oracle", where, f"check_stop says {bool(stop)} after a rejected call earlier in the history; "
+                            f"on a copy of the optimizer that never made the rejected call it says {not bool(stop)}")
             if stop:
                 count(f"{kind}:check_stop-reset")
                 es.reset(start.obj)
-                f = start.changed(where, "reset") or after_reset(where, case["x0"], x0)
+                f = start.changed(where, "reset") or after_reset(where, case["x0"], x0) or twin_reset(where, case["x0"])
                 if f:
                     return f
     except Stop as s:
@@ -759,7 +793,7 @@ def snapshot(es, kind):
     return dict(theta=np.array(es.adam_opt.theta))
 
 
-def es_iteration(case, es, shadow, op, where, kind, dt, tol, dim, batch, lb, ub, lb64, ub64, adam_ref):
+def es_iteration(case, es, shadow, op, where, kind, dt, tol, dim, batch, lb, ub, lb64, ub64, adam_ref, tw=None):
     mirror = kind == "openai" and case["mirror"]
     pre = snapshot(es, kind)
     due = None
@@ -767,6 +801,16 @@ def es_iteration(case, es, shadow, op, where, kind, dt, tol, dim, batch, lb, ub,
         due = es.current_eval > es.cov.updated_eval + es.lazy_gap_evals
     sols = es.ask()
     sols = np.array(sols)
+    if tw is not None and tw["es"] is not None:
+        tsols = np.array(tw["es"].ask())
+        count(f"{kind}:asks-compared-with-twin-after-rejected-call")
+        if tsols.shape != sols.shape or not np.array_equal(sols, tsols):
+            return fail("oracle", where, f"ask() after a rejected call earlier in the history returns another batch than "
+                        f"a copy of the optimizer that never made the rejected call (first rows "
+                        f"{sols[0].tolist()[:4]} vs {tsols[0].tolist()[:4]})")
+        f = twin_state(es, tw, where, "ask")
+        if f:
+            return f
     before = snapshot(es, kind)  # ask may refresh the eigensystem (and symmetrise the covariance)
     # ---- invariants on what was returned
     if sols.shape != (batch, dim):
@@ -871,7 +915,7 @@ def es_iteration(case, es, shadow, op, where, kind, dt, tol, dim, batch, lb, ub,
     # ---- model: the resample loop over the same stream (large configurations are driven on the
     # implementation-side oracles only: exact rationals through dozens of LM-MA-ES direction vectors are too slow)
     if case.get("no_model"):
-        return tell_part(case, es, op, where, kind, sols, recorded, before, tol, dim, batch, adam_ref, mirror)
+        return tell_part(case, es, op, where, kind, sols, recorded, before, tol, dim, batch, adam_ref, mirror, tw)
     r = ask_model(req + " rounds=" + stream_str(rounds))
     if "err" in r:
         return fail("corr", where, f"model ask failed ({r['err']}) on a stream the implementation consumed "
@@ -884,10 +928,89 @@ def es_iteration(case, es, shadow, op, where, kind, dt, tol, dim, batch, lb, ub,
     msg = close(f"{kind}.ask-record", recorded, prows(r["draws"], dim), max(1.0, amax(recorded)), tol)
     if msg:
         return fail("corr", where, "recorded draws: " + msg)
-    return tell_part(case, es, op, where, kind, sols, recorded, before, tol, dim, batch, adam_ref, mirror)
+    return tell_part(case, es, op, where, kind, sols, recorded, before, tol, dim, batch, adam_ref, mirror, tw)
 
 
-def tell_part(case, es, op, where, kind, sols, recorded, before, tol, dim, batch, adam_ref, mirror):
+def twin_state(es, tw, where, after_what):
+    """public state of the optimizer == public state of its twin that never made the rejected call(s)"""
+    d = diff_public(es, tw["es"])
+    if d:
+        return fail("oracle", where, f"after {after_what}, following a rejected call earlier in the history, the public "
+                    f"attributes {d} differ from those of a copy of the optimizer that never made the rejected call")
+    return None
+
+
+def outcome(fn):
+    try:
+        return None, fn()
+    except Exception as e:  # pylint: disable=broad-except
+        return type(e).__name__, None
+
+
+def es_rejected(case, es, op, where, kind, dim, batch, tw):
+    """a call the optimizer REJECTS (raises), after which it is used again: it must be indistinguishable from a
+    twin (deep copy taken before the first such call) that never made the call -- same public state now, same
+    batches and same state for the rest of the history (the twin is carried along by the caller)"""
+    how = op["how"]
+    if tw["es"] is None:
+        tw["es"] = copy.deepcopy(es)
+    twin = tw["es"]
+    perm = list(range(batch))
+    __import__("random").Random(op.get("vseed", 0)).shuffle(perm)
+    vals = perm_vals(case, op, batch, 0)
+    mu = max(1, batch // 2)
+    pos, k = op.get("pos", 0) % batch, int(op.get("k", 0))
+    if how == "tell-index-out-of-range":
+        perm[pos] = batch + k
+        call = lambda: es.tell(np.array(perm), vals, mu)
+    elif how == "tell-index-negative-out-of-range":
+        perm[pos] = -batch - 1 - k
+        call = lambda: es.tell(np.array(perm), vals, mu)
+    elif how == "tell-float-indices":
+        call = lambda: es.tell(np.array(perm, dtype=np.float64), vals, mu)
+    elif how == "tell-string-indices":
+        call = lambda: es.tell(np.array([str(i) for i in perm]), vals, mu)
+    elif how == "ask-negative-batch":
+        call = lambda: es.ask(batch_size=-1 - k)
+    elif how == "ask-fraction-batch":
+        call = lambda: es.ask(batch_size=batch + 0.5)
+    elif how == "adam-step-wrong-length" and kind == "openai":
+        call = lambda: es.adam_opt.step(np.ones(dim + 1 + k))
+    elif how == "adam-step-2d" and kind == "openai":
+        call = lambda: es.adam_opt.step(np.ones((2 + k, dim)))
+    elif how == "adam-step-non-numeric" and kind == "openai":
+        call = lambda: es.adam_opt.step(["x"] * dim)
+    else:
+        raise Stop("malformed-op")
+    err, _ = outcome(call)
+    if err is None:
+        # not rejected: what the call did is not judged (the property does not demand rejections), the case ends
+        count(f"{kind}:rejected-call-was-accepted:{how}")
+        raise Stop("rejected-call-accepted")
+    count(f"{kind}:rejected-calls-then-used-again")
+    count(f"{kind}:rejected-call:{how}")
+    f = twin_state(es, tw, f"{where} raised {err}", "the rejected call itself")
+    if f:
+        return f
+    # the next iteration on copies of both (so that a rejected call at the end of a history is observed as well)
+    a, b = copy.deepcopy(es), copy.deepcopy(twin)
+    pperm = np.arange(batch)[::-1].copy()
+    for name, fa, fb in (("ask()", a.ask, b.ask),
+                         ("tell()", lambda: a.tell(pperm, vals, mu), lambda: b.tell(pperm, vals, mu)),
+                         ("the ask() after the next tell()", a.ask, b.ask)):
+        (ea, ra), (eb, rb) = outcome(fa), outcome(fb)
+        same = ea == eb and (ra is None) == (rb is None) and (ra is None or np.array_equal(np.asarray(ra), np.asarray(rb)))
+        if same and not diff_public(a, b):
+            continue
+        what = f"raises {ea}" if ea else "returns" if ra is None else f"returns first row {np.asarray(ra)[0].tolist()[:4]}"
+        whatb = f"raises {eb}" if eb else "returns" if rb is None else f"returns first row {np.asarray(rb)[0].tolist()[:4]}"
+        return fail("oracle", where, f"raised {err}; afterwards {name} {what} (public attributes differing: "
+                    f"{diff_public(a, b)}), on a copy of the optimizer that never made the rejected call it {whatb}")
+    count(f"{kind}:next-iteration-compared-with-twin-after-rejected-call")
+    return None
+
+
+def tell_part(case, es, op, where, kind, sols, recorded, before, tol, dim, batch, adam_ref, mirror, tw=None):
     # ---- tell
     if op.get("perm") is not None:
         perm = [int(i) for i in op["perm"]]
@@ -908,6 +1031,12 @@ def tell_part(case, es, op, where, kind, sols, recorded, before, tol, dim, batch
     untold = copy.deepcopy(es) if mu == 0 and kind in ("cma", "sep", "lm") else None
     valsA, valsB = perm_vals(case, op, batch, 0), perm_vals(case, op, batch, 1)
     es.tell(np.array(perm), valsA, mu)
+    if tw is not None and tw["es"] is not None:
+        tw["es"].tell(np.array(perm), valsA, mu)
+        count(f"{kind}:tells-compared-with-twin-after-rejected-call")
+        f = twin_state(es, tw, where, "tell")
+        if f:
+            return f
     if untold is not None:
         # "zero parents change nothing": the next batch is the batch of a copy that was never told (tell draws
         # nothing, so both copies sample with the same generator state).
@@ -1295,6 +1424,7 @@ class GradTrack:
             (lambda th: AdamOpt(th, **case["adam"]))
         self.opt = self.make(start_obj)
         self.last = np.array(self.opt.theta)
+        self.twin = None  # deep copy taken before the first REJECTED step(); it receives every other call
         self.restart(values)
 
     def restart(self, values):
@@ -1326,6 +1456,72 @@ class GradTrack:
             return fail("oracle", where, "after reset the next step differs from a fresh optimizer's")
         return None
 
+    def twin_same(self, where, after_what):
+        if self.twin is None:
+            return None
+        a, b = np.asarray(self.opt.theta), np.asarray(self.twin.theta)
+        d = diff_public(self.opt, self.twin)
+        if d or a.shape != b.shape or a.dtype != b.dtype or not np.array_equal(a, b):
+            return fail("oracle", where, f"after {after_what}, following a rejected step() earlier in the history, theta = "
+                        f"{a.tolist()}; a copy of the optimizer that never made the rejected call has theta = "
+                        f"{b.tolist()} (public attributes differing: {d})")
+        return None
+
+    def rejected(self, where, op):
+        """a step() the optimizer REJECTS (raises), after which it is used again: it must be indistinguishable
+        from a twin (deep copy taken before the first such call) that never made the call -- same public state
+        now, same theta after every later step of the history and after two probe steps on copies of both"""
+        dim, how, k = self.dim, op["how"], int(op.get("k", 0))
+        vals = [float(x) for x in op["g"]]
+        if how == "longer":
+            bad = np.array((vals * (k + 2))[:dim + 1 + k])
+        elif how == "shorter":
+            bad = np.array(vals[:dim - 1 - k % max(dim - 2, 1)])
+        elif how == "2d-row":
+            bad = np.array([vals])
+        elif how == "2d-rows":
+            bad = np.array([vals] * (2 + k))
+        elif how == "2d-column":
+            bad = np.array(vals)[:, None]
+        elif how == "longer-list":
+            bad = vals + [1.0] * (1 + k)
+        elif how == "non-numeric":
+            bad = ["x"] * dim
+        elif how == "none":
+            bad = None
+        elif how == "ragged":
+            bad = [vals, vals[:-1] + [1.0, 2.0]]
+        elif how == "dict":
+            bad = {"gradient": vals}
+        elif how == "non-finite":
+            bad = np.array(vals)
+            bad[k % dim] = [np.nan, np.inf, -np.inf][k % 3]
+        else:
+            return "stop"
+        if self.twin is None:
+            self.twin = copy.deepcopy(self.opt)
+        err, _ = outcome(lambda: self.opt.step(bad))
+        if err is None:
+            # not rejected (it broadcasts / is taken as is): what the call did is not judged, the case ends
+            count(f"gradopt:rejected-call-was-accepted:{how}")
+            return "stop"
+        count("gradopt:rejected-calls-then-used-again")
+        count(f"gradopt:{self.kind}:rejected-call:{how}")
+        f = self.twin_same(f"{where} raised {err}", "the rejected call itself")
+        if f:
+            return f
+        a, b = copy.deepcopy(self.opt), copy.deepcopy(self.twin)
+        for n, g in enumerate(op["probe"]):
+            g = np.array(g, dtype=np.float64)
+            (ea, _), (eb, _) = outcome(lambda: a.step(g.copy())), outcome(lambda: b.step(g.copy()))
+            ta, tb = np.asarray(a.theta), np.asarray(b.theta)
+            if ea != eb or ta.shape != tb.shape or not np.array_equal(ta, tb):
+                return fail("oracle", where, f"raised {err}; valid step #{n + 1} afterwards (gradient {g.tolist()}) "
+                            f"{'raises ' + ea if ea else 'gives theta = ' + str(ta.tolist())}; on a copy of the optimizer "
+                            f"that never made the rejected call it {'raises ' + eb if eb else 'gives theta = ' + str(tb.tolist())}")
+        count("gradopt:next-steps-compared-with-twin-after-rejected-call")
+        return None
+
     def step(self, where, g, g_obj=None):
         """`g_obj` is what the caller passes (list of ints, int32 / int64 / float array); `g` its float64 values"""
         case, dim, tol = self.case, self.dim, TOL[F64]
@@ -1343,6 +1539,12 @@ class GradTrack:
                            key="D45-adam-integer-gradient" if "int" in kind_ else None)
         if g_fp is not None and fingerprint(g_obj) != g_fp:
             return fail("oracle", where, "step() modified the caller's gradient object")
+        if self.twin is not None:
+            self.twin.step(copy.deepcopy(g_obj))
+            count("gradopt:steps-compared-with-twin-after-rejected-call")
+            f = self.twin_same(where, "step()")
+            if f:
+                return f
         th = np.asarray(opt.theta, dtype=np.float64)
         if not np.all(np.isfinite(th)):
             return fail("oracle", where, "theta not finite")
@@ -1434,12 +1636,28 @@ def run_grad_case(case):
             f = start.changed(where, "reset") or tr.check_fresh(where, vals)
             if f:
                 return f
+            if tr.twin is not None:
+                tr.twin.reset(np.array(vals))
+                f = tr.twin_same(where, "reset()")
+                if f:
+                    return f
             tr.restart(vals)
             tr.last = np.array(tr.opt.theta)
             for other in tracks:
                 if other is not tr and not np.array_equal(np.asarray(other.opt.theta), other.last):
                     return fail("oracle", where, "a reset of one optimizer moved another optimizer built from the "
                                 "same theta0 array")
+            continue
+        if op["op"] == "rejected":
+            f = tr.rejected(f"{where} [{op['how']}]", op) or start.changed(where, "a rejected step")
+            if f == "stop":
+                return None
+            if f:
+                return f
+            for other in tracks:
+                if other is not tr and not np.array_equal(np.asarray(other.opt.theta), other.last):
+                    return fail("oracle", where, "a rejected call on one optimizer moved another optimizer built from "
+                                "the same theta0 array")
             continue
         g = np.array(op["g"], dtype=np.float64)
         gt = op.get("gtype", "f64")
@@ -1611,6 +1829,32 @@ def gen_perm_ops(rng, batch, n_iter, dim, x0_mag, mu_max=None, reset_p=0.1, dire
     return ops
 
 
+ES_REJECTIONS = ["tell-index-out-of-range", "tell-index-out-of-range", "tell-index-negative-out-of-range",
+                 "tell-float-indices", "tell-string-indices", "ask-negative-batch", "ask-fraction-batch"]
+OPENAI_REJECTIONS = ["adam-step-wrong-length", "adam-step-wrong-length", "adam-step-2d", "adam-step-non-numeric"]
+GRAD_REJECTIONS = ["longer", "longer", "longer", "shorter", "2d-row", "2d-rows", "2d-column", "longer-list",
+                   "non-numeric", "none", "ragged", "dict", "non-finite"]
+
+
+def sprinkle_rejected(rng, ops, make, p, follow=None):
+    """with probability p: 1..3 calls that are to be REJECTED at random positions of the history (first and last
+    included); `follow()` gives ops to append when nothing would come after the last of them"""
+    if rng.random() >= p:
+        return ops
+    for _ in range(rng.choice([1, 1, 2, 3])):
+        ops.insert(rng.randint(0, len(ops)), make())
+    if ops[-1]["op"] == "rejected" and follow is not None:
+        ops.extend(follow())
+    return ops
+
+
+def es_rejected_op(rng, kind, batch):
+    # (a malformed num_parents is NOT drawn: the property quantifies over parent counts from 0 to batch size)
+    hows = ES_REJECTIONS + (OPENAI_REJECTIONS * 2 if kind == "openai" else [])
+    return {"op": "rejected", "how": rng.choice(hows), "pos": rng.randrange(batch), "k": rng.randint(0, 3),
+            "vseed": rng.randrange(1 << 30)}
+
+
 def gen_es(kind, mirror=False, quick=True):
     def gen(rng):
         maxdim = 6 if quick else 8
@@ -1653,6 +1897,8 @@ def gen_es(kind, mirror=False, quick=True):
             case["adam"] = {"lr": rng.choice([0.001, 0.01, 0.05, 0.125]), "beta1": rng.choice([0.9, 0.5, 0.0, 0.75]),
                             "beta2": rng.choice([0.999, 0.9, 0.5]), "epsilon": rng.choice([1e-8, 1e-3, 0.125]),
                             "l2_coeff": rng.choice([0.0, 0.0, 0.005, 0.1, 1.0])}
+        sprinkle_rejected(rng, case["ops"], lambda: es_rejected_op(rng, kind, batch), 0.45,
+                          lambda: gen_perm_ops(rng, batch, rng.randint(1, 3), dim, 2, reset_p=0.0))
         return case
     return gen
 
@@ -1689,6 +1935,13 @@ def gen_grad(quick=True):
                 ops.append({"op": "step", "who": who,
                             "g": [rng.choice([0.0, rng.gauss(0, sc)]) if rng.random() < 0.1 else
                                   rng.gauss(0, sc) for _ in range(dim)]})
+        def grad():
+            return [dyadic(rng, -4, 4, 16) for _ in range(dim)] if exact else [rng.gauss(0, 1) for _ in range(dim)]
+
+        sprinkle_rejected(rng, ops, lambda: {"op": "rejected", "who": rng.randint(0, 1) if twin else 0,
+                                             "how": rng.choice(GRAD_REJECTIONS), "k": rng.randint(0, 3), "g": grad(),
+                                             "probe": [grad(), grad()]}, 0.45,
+                          lambda: [{"op": "step", "who": 0, "g": grad()}, {"op": "step", "who": 0, "g": grad()}])
         case = {"kind": kind, "dim": dim, "ops": ops, "exact": exact, "twin": twin,
                 "start_layout": rng.choice(["exact"] * 7 + ["noncontig", "list", "tuple"])}
         if exact:
@@ -1873,6 +2126,7 @@ def gen_recorded_f32(quick=True):
         if kind == "openai":
             case["mirror"] = False
             case["adam"] = {"lr": 0.01, "beta1": 0.9, "beta2": 0.999, "epsilon": 1e-8, "l2_coeff": 0.0}
+        sprinkle_rejected(rng, case["ops"], lambda: es_rejected_op(rng, kind, batch), 0.4)
         return case
     return gen
 
